@@ -4,12 +4,12 @@ package grid
 // validated and the raw action cache and the CAS are independent.
 
 import (
-	"strings"
 	"bytes"
 	"fmt"
 	"net/http"
 	"net/http/httptest"
 	"net/url"
+	"strings"
 	"testing"
 
 	"google.golang.org/grpc/codes"
